@@ -1,6 +1,11 @@
-(* C08 (package decl), part 4: where the faithful model of parse.c departs from C11 6.7.6 / the psABI, with the
-   witnesses (each replayed on the real chibicc, see DELIVERY_decl.md), and what it does with the tokens the
-   abstract syntax leaves out.  Everything here is computed by vm_compute on the model. *)
+(* C08 (package decl), part 4: the witnesses.  (The file keeps its name; since Update 2 nothing in it is a
+   refutation any more.)
+
+   (a) The inputs on which the first version of this package REFUTED parse.c against C11 6.7.6 / the psABI, replayed
+       on the model of the repaired code (fix commits fbdf355, 8507b9f, 053b61b in /repo): each is now an instance
+       of the general theorems, recomputed here by vm_compute as a regression.
+   (b) What parse.c still accepts although it is not C11 (notes, not violations of C08).
+   (c) What it does with the tokens the abstract syntax leaves out ([ static / qualifiers ]). *)
 From Coq Require Import List ZArith Bool Lia.
 From Chibicc Require Import Spec.DeclSyntax Spec.DeclSpec6_7_6 Model.Declarator
      Proofs.DeclaratorParse Proofs.DeclaratorTypes Proofs.DeclaratorSizes.
@@ -9,71 +14,69 @@ Local Open Scope Z_scope.
 
 Definition abs0 : decl := DDirect (DIdent None).
 
+(* ------------------------------------------------------------------ (a) repaired *)
 (* (1) `T ()` with the identifier omitted - as in `void g(int ());` - is "function with unspecified parameters
-   returning T" (6.7.6.3p14; as a parameter adjusted to a pointer to it).  parse.c takes the "(" for a
-   parenthesised declarator, finds nothing inside, and yields T itself.  So [chibicc_ok] cannot be dropped. *)
+   returning T" (6.7.6.3p14).  Was: parsed as T.  Now: "(" followed by ")" or a type keyword opens a parameter list. *)
 Definition d_unspec : decl := DDirect (DFunc (DIdent None) PUnspec).
-Theorem abstract_func_refuted :
-  exists d m, c11_ok d = true /\ name_of d = None /\
-    parse_declarator (print_decl d ++ [TRParen]) (MBase LInt) = Ok (None, m, [TRParen]) /\
-    parse_abstract (print_decl d ++ [TRParen]) (MBase LInt) = Ok (m, [TRParen]) /\
-    shape m <> unqual (type_of (TLeaf LInt) d).
-Proof.
-  exists d_unspec, (MBase LInt). vm_compute. repeat split; try reflexivity. discriminate.
-Qed.
+Theorem abstract_func_repaired :
+  c11_ok d_unspec = true /\ name_of d_unspec = None /\
+  (exists m, parse_declarator (print_decl d_unspec ++ [TRParen]) (MBase LInt) = Ok (None, m, [TRParen]) /\
+             parse_abstract (print_decl d_unspec ++ [TRParen]) (MBase LInt) = Ok (m, [TRParen]) /\
+             shape m = unqual (type_of (TLeaf LInt) d_unspec)) /\
+  type_of (TLeaf LInt) d_unspec = TFun (TLeaf LInt) [] FNoProto.
+Proof. vm_compute. repeat split; try reflexivity. eexists. repeat split; reflexivity. Qed.
 
-(* the same inside a parameter list: void g(int ()) gets the parameter type int instead of int ( * )() *)
+(* void g(int ()) : the parameter is int ( * )() *)
 Definition d_g_unspec : decl :=
   DDirect (DFunc (DIdent (Some 0%nat)) (PList (POne (Param LInt d_unspec)) false)).
-Theorem param_abstract_func_refuted :
+Theorem param_abstract_func_repaired :
   c11_ok d_g_unspec = true /\
   (exists m, parse_declarator (print_decl d_g_unspec ++ [TOther]) (MBase LVoid) = Ok (Some 0%nat, m, [TOther]) /\
-     shape m = TFun (TLeaf LVoid) [TLeaf LInt] FProto) /\
+     shape m = unqual (type_of (TLeaf LVoid) d_g_unspec)) /\
   type_of (TLeaf LVoid) d_g_unspec = TFun (TLeaf LVoid) [TPtr [] (TFun (TLeaf LInt) [] FNoProto)] FProto.
 Proof. vm_compute. split; [reflexivity|]. split; [|reflexivity]. eexists. split; reflexivity. Qed.
 
-(* with a prototype, `T (int)` / `T (void)`, parse.c reports an error ("expected ')'") on a valid declarator *)
-Theorem abstract_proto_rejected :
+(* `T (int)` / `T (void)` with the identifier omitted: were rejected ("expected ')'"), are functions now *)
+Theorem abstract_proto_accepted :
   let d1 := DDirect (DFunc (DIdent None) (PList (POne (Param LInt abs0)) false)) in
   let d2 := DDirect (DFunc (DIdent None) PVoid) in
   c11_ok d1 = true /\ c11_ok d2 = true /\
-  parse_declarator (print_decl d1 ++ [TRParen]) (MBase LInt) = Err /\
-  parse_declarator (print_decl d2 ++ [TRParen]) (MBase LInt) = Err /\
-  parse_abstract (print_decl d1 ++ [TRParen]) (MBase LInt) = Err.
+  parse_declarator (print_decl d1 ++ [TRParen]) (MBase LInt)
+    = Ok (None, MFunc (MBase LInt) [(None, MBase LInt)] false, [TRParen]) /\
+  parse_declarator (print_decl d2 ++ [TRParen]) (MBase LInt) = Ok (None, MFunc (MBase LInt) [] false, [TRParen]) /\
+  parse_abstract (print_decl d1 ++ [TRParen]) (MBase LInt)
+    = Ok (MFunc (MBase LInt) [(None, MBase LInt)] false, [TRParen]).
 Proof. vm_compute. repeat split; reflexivity. Qed.
 
-(* (2) an array bound of 2^31 or more is truncated to a C int: char[4294967299] is char[3], char[2147483648]
-   has a negative length and size and counts as an incomplete type *)
-Theorem big_bound_refuted :
-  exists d m, c11_ok d = true /\
-    parse_declarator (print_decl d ++ [TOther]) (MBase LChar) = Ok (None, m, [TOther]) /\
-    sizeof (type_of (TLeaf LChar) d) = Some 4294967299 /\ ty_size m = 3 /\
-    shape m = TArr (Some 3) (TLeaf LChar).
-Proof.
-  exists (DDirect (DArray (DIdent None) (Some 4294967299))). eexists. vm_compute. repeat split; reflexivity.
-Qed.
+(* (2) char[4294967299] was char[3]; char x[2147483648] had size -2147483648; int[70000][70000] had size
+   -1874836480.  Now: "array too large" - and that is what the spec-level limit [oversize] says *)
+Theorem big_arrays_rejected :
+  let d1 := DDirect (DArray (DIdent None) (Some 4294967299)) in
+  let d2 := DDirect (DArray (DIdent (Some 1%nat)) (Some 2147483648)) in
+  let d3 := DDirect (DArray (DArray (DIdent None) (Some 70000)) (Some 70000)) in
+  parse_declarator (print_decl d1 ++ [TOther]) (MBase LChar) = TooLarge /\ oversize d1 (TLeaf LChar) = true /\
+  parse_declarator (print_decl d2 ++ [TOther]) (MBase LChar) = TooLarge /\ oversize d2 (TLeaf LChar) = true /\
+  parse_declarator (print_decl d3 ++ [TOther]) (MBase LInt) = TooLarge /\ oversize d3 (TLeaf LInt) = true /\
+  sizeof (type_of (TLeaf LInt) d3) = Some 19600000000.
+Proof. vm_compute. repeat split; reflexivity. Qed.
 
-Theorem bound_2G_refuted :
-  exists d m, c11_ok d = true /\
-    parse_declarator (print_decl d ++ [TOther]) (MBase LChar) = Ok (Some 1%nat, m, [TOther]) /\
-    sizeof (type_of (TLeaf LChar) d) = Some 2147483648 /\ ty_size m = -2147483648.
-Proof.
-  exists (DDirect (DArray (DIdent (Some 1%nat)) (Some 2147483648))). eexists. vm_compute. repeat split; reflexivity.
-Qed.
+(* the limit is sharp: 2147483647 bytes are accepted with the right size, one element more is not *)
+Theorem limit_is_sharp :
+  parse_declarator (print_decl (DDirect (DArray (DIdent None) (Some 2147483647))) ++ [TOther]) (MBase LChar)
+    = Ok (None, MArr (MBase LChar) 2147483647 2147483647 1, [TOther]) /\
+  parse_declarator (print_decl (DDirect (DArray (DIdent None) (Some 536870911))) ++ [TOther]) (MBase LInt)
+    = Ok (None, MArr (MBase LInt) 536870911 2147483644 4, [TOther]) /\
+  parse_declarator (print_decl (DDirect (DArray (DIdent None) (Some 536870912))) ++ [TOther]) (MBase LInt) = TooLarge /\
+  (* a parameter's array is tested BEFORE it is adjusted to a pointer *)
+  parse_declarator (print_decl (DDirect (DFunc (DIdent (Some 0%nat))
+       (PList (POne (Param LInt (DDirect (DArray (DIdent (Some 1%nat)) (Some 3000000000))))) false))) ++ [TOther]) (MBase LVoid)
+    = TooLarge /\
+  (* an element of size 0 (GNU empty struct) counts as one byte *)
+  parse_declarator (print_decl (DDirect (DArray (DIdent None) (Some 3000000000))) ++ [TOther]) (MBase (LAgg 0 1)) = TooLarge /\
+  oversize (DDirect (DArray (DIdent None) (Some 3000000000))) (TLeaf (LAgg 0 1)) = true.
+Proof. vm_compute. repeat split; reflexivity. Qed.
 
-(* (3) with every bound in range the SIZE can still leave the C int: int[70000][70000].  So [fits] cannot be
-   dropped from the size theorem: sizes of objects of 2 GiB and more are wrong (psABI: size_t is 64 bits) *)
-Theorem size_overflow_refuted :
-  exists d m, c11_ok d = true /\ chibicc_ok d = true /\
-    parse_declarator (print_decl d ++ [TOther]) (MBase LInt) = Ok (None, m, [TOther]) /\
-    shape m = type_of (TLeaf LInt) d /\
-    sizeof (type_of (TLeaf LInt) d) = Some 19600000000 /\ ty_size m = -1874836480.
-Proof.
-  exists (DDirect (DArray (DArray (DIdent None) (Some 70000)) (Some 70000))). eexists.
-  vm_compute. repeat split; reflexivity.
-Qed.
-
-(* ------------------------------------------------------------------ accepted although not C11 (notes) *)
+(* ------------------------------------------------------------------ (b) accepted although not C11 (notes) *)
 (* arrays of functions (6.7.6.2p1), functions returning arrays when parenthesised (6.7.6.3p1), a void
    parameter next to others, an identifier list / missing specifiers (implicit int) are accepted silently *)
 Example accepts_array_of_functions :
@@ -98,37 +101,42 @@ Example no_suffix_after_params :
   parse_declarator [TIdent 1%nat; TLParen; TBase LVoid; TRParen; TLBrack; TNum 3; TRBrack] (MBase LInt)
   = Ok (Some 1%nat, MFunc (MBase LInt) [] false, [TLBrack; TNum 3; TRBrack]).
 Proof. reflexivity. Qed.
+(* a "(" directly behind the pointers that is followed by an identifier is still a nested declarator:
+   `int (x)` declares x (and, outside the model, so does `int (T)` for a typedef name T - deliberately) *)
+Example paren_ident_is_nested :
+  parse_declarator [TLParen; TIdent 1%nat; TRParen; TOther] (MBase LInt) = Ok (Some 1%nat, MBase LInt, [TOther]).
+Proof. reflexivity. Qed.
 
-(* ------------------------------------------------------------------ tokens inside [ ] *)
-Fixpoint all_static_restrict (l : list tok) : bool :=
+(* ------------------------------------------------------------------ (c) tokens inside [ ] *)
+Fixpoint all_static_quals (l : list tok) : bool :=
   match l with
   | [] => true
-  | TStatic :: r => all_static_restrict r
-  | TQual QRestrict :: r => all_static_restrict r
+  | TStatic :: r => all_static_quals r
+  | TQual _ :: r => all_static_quals r
   | _ => false
   end.
 
-Lemma skip_static_restrict_app : forall sr toks,
-  all_static_restrict sr = true -> skip_static_restrict (sr ++ toks) = skip_static_restrict toks.
+Lemma skip_static_quals_app : forall sr toks,
+  all_static_quals sr = true -> skip_static_quals (sr ++ toks) = skip_static_quals toks.
 Proof.
   induction sr as [|t sr IH]; intros toks H; [reflexivity|].
-  destruct t; try discriminate H; cbn [app skip_static_restrict all_static_restrict] in *.
-  - destruct q; try discriminate H. apply IH. exact H.
-  - apply IH. exact H.
+  destruct t; try discriminate H; cbn [app skip_static_quals all_static_quals] in *; apply IH; exact H.
 Qed.
 
-(* `static` and `restrict` behind a "[" (6.7.6.2p1/6.7.6.3p7, only meaningful in the outermost array
-   derivation of a parameter) are skipped anywhere and change nothing *)
-Theorem static_restrict_ignored : forall fuel sr toks ty,
-  all_static_restrict sr = true ->
+(* `static` and type qualifiers behind a "[" (6.7.6.2p1 / 6.7.6.3p7, meaningful only in the outermost array
+   derivation of a parameter, where they would qualify the adjusted pointer - chibicc has no qualifiers) are
+   skipped, in any number and order, anywhere, and change nothing *)
+Theorem static_quals_ignored : forall fuel sr toks ty,
+  all_static_quals sr = true ->
   array_dimensions fuel (sr ++ toks) ty = array_dimensions fuel toks ty.
 Proof.
   intros fuel sr toks ty H. destruct fuel as [|f]; [reflexivity|].
   rewrite !array_dimensions_S. unfold array_dimensions_body.
-  rewrite skip_static_restrict_app by exact H. reflexivity.
+  rewrite skip_static_quals_app by exact H. reflexivity.
 Qed.
 
-(* `const` / `volatile` there - valid in a parameter, 6.7.6.3p7 - are an error *)
-Example const_in_brackets_rejected :
-  parse_declarator [TIdent 1%nat; TLBrack; TQual QConst; TNum 3; TRBrack; TRParen] (MBase LInt) = Err.
+(* was rejected ("expected an expression") *)
+Example const_in_brackets_accepted :
+  parse_declarator [TIdent 1%nat; TLBrack; TQual QConst; TStatic; TNum 3; TRBrack; TRParen] (MBase LInt)
+  = Ok (Some 1%nat, MArr (MBase LInt) 3 12 4, [TRParen]).
 Proof. reflexivity. Qed.
